@@ -1132,7 +1132,14 @@ def spec_helpers(world, it=None):
     def val(it, node, x):
         return SVal(S.box_any(x))
 
+    def ncalls(it, node, f):
+        # ghost: how many times callback f has been applied so far
+        if f is None:
+            return 0
+        return SInt(it.ncalls.get(f.name, z3.IntVal(0)))
+
     d = dict(Int='Int', Str='Str', Val='Val', val=val, forall=forall,
+             ncalls=ncalls,
              sizeof=lambda it, node, x: world.lib[('sys', 'getsizeof')].fn(x), exists=exists, implies=implies, iff=iff,
              ite=ite, truthy=truthy, ufn=ufn)
     return {k: (Model(k, v, True) if callable(v) else v)
